@@ -18,10 +18,18 @@ RULE = ("a cell (LAMMPS triangular form, lengths 1-12, tilts up to 1.5 lengths, 
         "corners / atoms within 1e-12..1e-6 cutoff of a bin edge / jittered lattice up to 60 atoms / 40-70 atoms "
         "inside one cutoff-sized cube / dyadic orthogonal cell with one pair exactly at or 2^-20 off the cutoff), cutoff "
         "0.05-1.6 of the smallest perpendicular width, initialsize and "
-        "deltasize 1-25 or default.  Non-trivial: (at least one pair is expected AND (a pair is realised only through "
+        "deltasize 1-25 or default; every number is handed over in one of its documented forms (positions: float64 array / "
+        "read-only array (setflags, frombuffer, memmap) / Fortran-ordered / strided view / list / tuple, dyadic systems also "
+        "float32 and - when all positions are whole numbers - integer-typed array / list / tuple; cutoff float / numpy.float64 / "
+        "int; sizes int / numpy ints; pbc list / tuple / bool array).  history: ONE NeighborList object (created by the "
+        "constructor, System.neighborlist or from a file) goes through 1-4 steps - build() for the same or another system, "
+        "cutoff and sizes / load() of another list's file (path, stream, BytesIO, content) / dump-and-load of itself / in-place "
+        "edit of the system (pbc setter, positions rolled, an atom moved onto another, whole-property assignment) followed by "
+        "build() - read in varying orders or not at all between the steps, and is judged against the reference after every "
+        "step; a second list built at the start must still read the same at the end.  Non-trivial: (at least one pair is expected AND (a pair is realised only through "
         "a periodic image OR a bin holding only periodic images exists, by independent re-binning, OR a row outgrew "
         "initialsize OR a bin received 40 or more entries)) OR a pair lies exactly at the cutoff in exact arithmetic; sizes: a row outgrew the drawn initialsize; file/api: at "
-        "least one pair is expected")
+        "least one pair is expected; history: a step on an object that had been read replaced its lists by different ones")
 ASSUMPTIONS = ["numpy is correct",
                "the periodic distance 'in the sense of C02' is the shortest of the 27 (9/3/1) candidates with shifts "
                "-1,0,+1 per periodic direction (what C02 states for dmag), computed here by an independent numpy loop",
@@ -30,25 +38,146 @@ ASSUMPTIONS = ["numpy is correct",
                "atoms placed at relative coordinate 0 or 1 count as inside the cell (inside to rounding, 1e-9 relative)",
                "Box and Atoms store the numbers they are given (C01, C06); the cell and positions are read back from "
                "the System as data for the reference computation"]
-LEVEL_TEXT = ("Randomised exploration of cells x pbc x atom placements x cutoffs x storage sizes (about 20 000 systems "
+LEVEL_TEXT = ("Randomised exploration of cells x pbc x atom placements x cutoffs x storage sizes x input forms (about 20 000 systems "
               "quick, 480 000 thorough); every list is compared entry by entry with an independent O(N^2 * 27) "
-              "reference; sizes / file / API variants are compared with each other.")
+              "reference; sizes / file / API variants are compared with each other; histories of build / load / in-place "
+              "system edits on one NeighborList object are judged by the same reference after every step.")
 TECHNIQUE = "independent all-pairs 27-image reference; independent re-binning to classify cases and key the ghost-only-bin loss; differential comparison across storage sizes, file round trip and entry points"
 WALL = {'quick': 55, 'thorough': 560}
 
 KEY_GHOST = 'C03:lost-pair:adjacent-only-through-ghost-only-bin'
+KEY_DTYPE = 'C03:nlist:positions-not-stored-as-float64'
+KEY_METHOD_MODEL = 'C03:System.neighborlist:model'
 INSIDE_TOL = 1e-9
 
 
 # ----------------------------------------------------------------------------- building and reading
 
+_INTS = {'int': int, 'npint64': np.int64, 'npint32': np.int32}
+READONLY_FORMS = ('readonly', 'frombuffer', 'memmap')
+INT_FORMS = ('intarray', 'intlist', 'inttuple')
+
+
+def form_of(case, what, default):
+    return (case.get('form') or {}).get(what, default)
+
+
 def size_kwargs(case):
+    conv = _INTS[form_of(case, 'sizes', 'int')]
     kw = {}
     if case.get('initialsize') is not None:
-        kw['initialsize'] = int(case['initialsize'])
+        kw['initialsize'] = conv(case['initialsize'])
     if case.get('deltasize') is not None:
-        kw['deltasize'] = int(case['deltasize'])
+        kw['deltasize'] = conv(case['deltasize'])
     return kw
+
+
+def spell_cutoff(case, cutoff):
+    """the cutoff in the form the case asks for (int forms apply to whole values only)"""
+    f = form_of(case, 'cutoff', 'float')
+    cutoff = float(cutoff)
+    if f in ('int', 'npint') and cutoff == np.rint(cutoff):
+        return int(cutoff) if f == 'int' else np.int64(int(cutoff))
+    if f == 'npfloat':
+        return np.float64(cutoff)
+    return cutoff
+
+
+def spell_pbc(case, pbc):
+    f = form_of(case, 'pbc', 'list')
+    pbc = [bool(p) for p in pbc]
+    return tuple(pbc) if f == 'tuple' else np.array(pbc, dtype=bool) if f == 'nparray' else pbc
+
+
+def spell_pos(pos0, form):
+    """the positions in the form the case asks for; every form holds exactly the numbers of pos0"""
+    if form == 'array':
+        return pos0.copy()
+    if form == 'readonly':
+        a = pos0.copy()
+        a.setflags(write=False)
+        return a
+    if form == 'frombuffer':
+        return np.frombuffer(pos0.tobytes(), dtype=np.float64).reshape(pos0.shape)
+    if form == 'memmap':
+        tmp = tempfile.mkdtemp(prefix='c03-')
+        try:
+            path = os.path.join(tmp, 'pos.npy')
+            np.save(path, pos0)
+            return np.load(path, mmap_mode='r')          # the mapping outlives the directory entry
+        finally:
+            shutil.rmtree(tmp, ignore_errors=True)
+    if form == 'fortran':
+        return np.asfortranarray(pos0)
+    if form == 'strided':
+        big = np.full((2 * len(pos0) + 1, 7), np.nan)
+        big[1::2, 1::2] = pos0
+        return big[1::2, 1::2]
+    if form == 'list':
+        return pos0.tolist()
+    if form == 'tuple':
+        return tuple(tuple(r) for r in pos0.tolist())
+    if form == 'float32':
+        a = pos0.astype(np.float32)
+        assert np.array_equal(a.astype(float), pos0), 'generator asked for float32 positions that are not exact in float32'
+        return a
+    if form in INT_FORMS:
+        a = np.rint(pos0).astype(np.int64)
+        assert np.array_equal(a.astype(float), pos0), 'generator asked for integer-typed positions that are not whole'
+        return a if form == 'intarray' else a.tolist() if form == 'intlist' else tuple(tuple(r) for r in a.tolist())
+    raise AssertionError('unknown position form %r' % (form,))
+
+
+def form_labels(case, system):
+    f = case.get('form') or {}
+    pf = f.get('pos', 'array')
+    labels = {'pos_' + pf}
+    stored = np.asarray(system.atoms.pos)
+    if not stored.flags['WRITEABLE']:
+        labels.add('pos_readonly_stored')
+    if not stored.flags['C_CONTIGUOUS']:
+        labels.add('pos_noncontiguous_stored')
+    if pf in ('list', 'tuple', 'intlist', 'inttuple'):
+        labels.add('pos_sequence')
+    if stored.dtype.kind in 'iu':
+        labels.add('pos_int_stored')
+    if stored.dtype != np.float64:
+        labels.add('pos_not_float64_stored')
+    if f.get('cutoff', 'float') != 'float':
+        labels.add('cutoff_' + f['cutoff'])
+    if f.get('sizes', 'int') != 'int' and (case.get('initialsize') is not None or case.get('deltasize') is not None):
+        labels.add('sizes_numpy_int')
+    if f.get('pbc', 'list') != 'list':
+        labels.add('pbc_' + f['pbc'])
+    return labels
+
+
+def keyed(system, fn):
+    """fn() builds a neighbour list for system.  KNOWN FINDING on the unchanged code: positions that Atoms stores with
+    a dtype other than float64 (whole numbers handed over integer-typed, float32 arrays - both 'list/ndarray of float'
+    in the words of the Atoms docstring, and dvect/dmag/wrap/supersize/rotate/dump all work with them) make nlist raise
+    ValueError('Buffer dtype mismatch ...') from its typed memoryview.  Keyed for exactly that class and message;
+    everything else propagates."""
+    try:
+        return fn()
+    except ValueError as e:
+        dt = np.asarray(system.atoms.pos).dtype
+        if dt != np.float64 and str(e).startswith('Buffer dtype mismatch'):
+            raise Violation('positions stored as %s (whole numbers handed over integer-typed, or a float32 array): the neighbour '
+                            'list cannot be built: ValueError(%s)' % (dt, e), KEY_DTYPE)
+        raise
+
+
+def method_model(system, model):
+    """System.neighborlist(model=...), documented there ('model : str or file-like object, optional.  Gives the file path
+    or content to load.  If given, no other parameters are allowed').  KNOWN FINDING on the unchanged code: the method
+    adds system= to the keywords it forwards and NeighborList.load does not take it -> TypeError; keyed for that message."""
+    try:
+        return system.neighborlist(model=model)
+    except TypeError as e:
+        if "unexpected keyword argument 'system'" in str(e):
+            raise Violation('System.neighborlist(model=<file>) raises TypeError(%s)' % e, KEY_METHOD_MODEL)
+        raise
 
 
 def build_system(case):
@@ -60,8 +189,8 @@ def build_system(case):
     s = (pos0 - o0) @ np.linalg.inv(V0)
     # domain of the property: all atoms inside the cell (generator bug otherwise -> harness error)
     assert s.min() >= -INSIDE_TOL and s.max() <= 1 + INSIDE_TOL, 'generator produced an atom outside the cell'
-    system = am.System(atoms=am.Atoms(pos=pos0.copy()), box=am.Box(vects=V0.copy(), origin=o0.copy()),
-                       pbc=list(case['pbc']))
+    system = am.System(atoms=am.Atoms(pos=spell_pos(pos0, form_of(case, 'pos', 'array'))),
+                       box=am.Box(vects=V0.copy(), origin=o0.copy()), pbc=spell_pbc(case, case['pbc']))
     pos = np.array(system.atoms.pos, dtype=float)
     V = np.array(system.box.vects, dtype=float)
     o = np.array(system.box.origin, dtype=float)
@@ -106,8 +235,9 @@ def same_lists(rows_a, rows_b, what):
 def is_exact_case(case, pos, V, o, cutoff):
     """dyadic sub-generator: orthogonal cell, every number a small dyadic rational, so that every sum and square in
     a squared distance (here and in any straightforward implementation) is exact and '<' is decided exactly"""
-    return bool(case.get('dyadic')) and np.count_nonzero(V - np.diag(np.diag(V))) == 0 \
-        and is_small_dyadic(pos, V, o, bits=3) and is_small_dyadic(cutoff, bits=20, bound=2 ** 5)
+    sc = float(case.get('scale', 1.0))       # 1 or 8: a power-of-two rescaling changes no rounding decision
+    return bool(case.get('dyadic')) and sc in (1.0, 8.0) and np.count_nonzero(V - np.diag(np.diag(V))) == 0 \
+        and is_small_dyadic(pos / sc, V / sc, o / sc, bits=3) and is_small_dyadic(cutoff / sc, bits=20, bound=2 ** 5)
 
 
 def expected(pos, V, pbc, cutoff, exact=False):
@@ -200,12 +330,25 @@ def compare_with_reference(rows, pos, V, o, pbc, cutoff, exp, near, D, rb, what=
                        [(i, j, float(D[i, j])) for i, j in extra[:4]], note), key)
 
 
+class LazyRebin:
+    """the independent re-binning is needed only to decide of which kind a missing pair is: built on first use"""
+
+    def __init__(self, *args):
+        self._args = args
+        self._rb = None
+
+    def __getattr__(self, name):
+        if self._rb is None:
+            self._rb = Rebin(*self._args)
+        return getattr(self._rb, name)
+
+
 def oracle_exact(case):
     import atomman as am
     system, pos, V, o, pbc = build_system(case)
     cutoff = float(case['cutoff'])
     N = len(pos)
-    nl = am.NeighborList(system=system, cutoff=cutoff, **size_kwargs(case))
+    nl = keyed(system, lambda: am.NeighborList(system=system, cutoff=spell_cutoff(case, cutoff), **size_kwargs(case)))
     rows = read_lists(nl, N)
     exact = is_exact_case(case, pos, V, o, cutoff)
     exp, near, D, D0, atcut = expected(pos, V, pbc, cutoff, exact)
@@ -214,8 +357,10 @@ def oracle_exact(case):
     if not near.any():
         cnt = exp.sum(axis=1)
         require(np.array_equal(np.asarray(nl.coord), cnt), lambda: 'coord %r differs from the expected counts %r' % (nl.coord.tolist(), cnt.tolist()))
+    require(np.array_equal(np.asarray(system.atoms.pos, dtype=float), pos) and list(system.pbc) == pbc,
+            'building a neighbour list changed the system')
     maxcoord = max((len(r) for r in rows), default=0)
-    return case_labels(case, pos, V, o, pbc, cutoff, exp, near, D0, rb, maxcoord, atcut, exact)
+    return case_labels(case, pos, V, o, pbc, cutoff, exp, near, D0, rb, maxcoord, atcut, exact) | form_labels(case, system)
 
 
 # ----------------------------------------------------------------------------- sizes
@@ -236,18 +381,23 @@ def oracle_sizes(case):
     import atomman as am
     system, pos, V, o, pbc = build_system(case)
     cutoff = float(case['cutoff'])
+    carg = spell_cutoff(case, cutoff)
     N = len(pos)
+    conv = _INTS[form_of(case, 'sizes', 'int')]
     isz, dsz = int(case['initialsize']), int(case['deltasize'])
-    ref = read_lists(am.NeighborList(system=system, cutoff=cutoff), N, 'default sizes')
-    variants = [('initialsize=%d, deltasize=%d' % (isz, dsz), dict(initialsize=isz, deltasize=dsz)),
-                ('initialsize=%d' % isz, dict(initialsize=isz)),
-                ('deltasize=%d' % dsz, dict(deltasize=dsz))]
+    ref = read_lists(keyed(system, lambda: am.NeighborList(system=system, cutoff=carg)), N, 'default sizes')
+    variants = [('initialsize=%d, deltasize=%d' % (isz, dsz), dict(initialsize=conv(isz), deltasize=conv(dsz))),
+                ('initialsize=%d' % isz, dict(initialsize=conv(isz))),
+                ('deltasize=%d' % dsz, dict(deltasize=conv(dsz)))]
     for what, kw in variants:
-        nl = am.NeighborList(system=system, cutoff=cutoff, **kw)
+        nl = am.NeighborList(system=system, cutoff=carg, **kw)
         rows = read_lists(nl, N, what)
         same_lists(ref, rows, 'default sizes versus ' + what)
+    # ... and once more with the default sizes, after the other calls in this process
+    same_lists(ref, read_lists(am.NeighborList(system=system, cutoff=carg), N, 'default sizes again'),
+               'default sizes, first versus repeated call')
     maxcoord = max((len(r) for r in ref), default=0)
-    labels = {'kind_' + case['kind']}
+    labels = {'kind_' + case['kind']} | form_labels(case, system)
     if maxcoord > 0:
         labels.add('has_pairs')
     if maxcoord > isz:
@@ -263,12 +413,22 @@ def oracle_sizes(case):
 
 # ----------------------------------------------------------------------------- file
 
+_file_reader = st.sampled_from(['ctor', 'ctor', 'ctor', 'method'])
+
+
+@st.composite
+def file_cases(draw):
+    case = draw(g3.systems())
+    case['reader'] = draw(_file_reader)
+    return case
+
+
 def oracle_file(case):
     import atomman as am
     system, pos, V, o, pbc = build_system(case)
     cutoff = float(case['cutoff'])
     N = len(pos)
-    nl = am.NeighborList(system=system, cutoff=cutoff, **size_kwargs(case))
+    nl = keyed(system, lambda: am.NeighborList(system=system, cutoff=spell_cutoff(case, cutoff), **size_kwargs(case)))
     rows = read_lists(nl, N)
     tmp = tempfile.mkdtemp(prefix='c03-')
     try:
@@ -276,6 +436,14 @@ def oracle_file(case):
         nl.dump(path)
         with open(path) as fh:
             text = fh.read()
+        if case.get('reader') == 'method':
+            # the reading entry point documented on System (blocked by a known finding on the unchanged code: raised first)
+            back0 = method_model(system, path)
+            require(isinstance(back0, am.NeighborList), lambda: 'System.neighborlist(model=) returned %r' % type(back0))
+            same_lists(rows, read_lists(back0, N, 'read back by System.neighborlist(model=path)'),
+                       'built versus read back by System.neighborlist(model=path)')
+            same_lists(rows, read_lists(method_model(system, text), N, 'read back by System.neighborlist(model=content)'),
+                       'built versus read back by System.neighborlist(model=content)')
         back = am.NeighborList(model=path)
         same_lists(rows, read_lists(back, N, 'read back from path'), 'built versus read back from file path')
         with open(path, 'rb') as fh:
@@ -285,16 +453,22 @@ def oracle_file(case):
         same_lists(rows, read_lists(back3, N, 'read back from BytesIO'), 'built versus read back from BytesIO')
         back4 = am.NeighborList(model=text)
         same_lists(rows, read_lists(back4, N, 'read back from content'), 'built versus read back from file content string')
+        # (text-mode streams are a documented refusal: ValueError 'open file-like objects need to be in a bytes mode')
         require(np.array_equal(np.asarray(back.coord), np.asarray(nl.coord)), 'coord changed by the file round trip')
         # second generation: dump of the loaded list is the same text
         path2 = os.path.join(tmp, 'nlist2.txt')
         back.dump(path2)
         with open(path2) as fh:
             require(fh.read() == text, 'dump of the read-back list differs from the first dump')
+        # writing is repeatable and leaves the list as it was
+        nl.dump(path2)
+        with open(path2) as fh:
+            require(fh.read() == text, 'second dump of the same list differs from the first')
+        same_lists(rows, read_lists(nl, N, 'after dump'), 'list before versus after dump')
     finally:
         shutil.rmtree(tmp, ignore_errors=True)
     maxcoord = max((len(r) for r in rows), default=0)
-    labels = {'kind_' + case['kind']}
+    labels = {'kind_' + case['kind'], 'reader_' + case.get('reader', 'ctor')} | form_labels(case, system)
     if maxcoord > 0:
         labels.update({'has_pairs', 'nt'})
     if min((len(r) for r in rows), default=0) == 0:
@@ -311,12 +485,15 @@ def oracle_file(case):
 # ----------------------------------------------------------------------------- api
 
 _via = st.sampled_from(['method', 'function', 'build'])
+_bool = st.booleans()
 
 
 @st.composite
 def api_cases(draw):
     case = draw(g3.systems())
     case['via'] = draw(_via)
+    case['positional'] = draw(_bool)
+    case['inspect'] = draw(_bool)
     return case
 
 
@@ -324,17 +501,23 @@ def oracle_api(case):
     import atomman as am
     system, pos, V, o, pbc = build_system(case)
     cutoff = float(case['cutoff'])
+    carg = spell_cutoff(case, cutoff)
     N = len(pos)
     kw = size_kwargs(case)
-    nl = am.NeighborList(system=system, cutoff=cutoff, **kw)
+    positional = bool(case.get('positional'))
+    nl = keyed(system, lambda: am.NeighborList(system=system, cutoff=carg, **kw))
     rows = read_lists(nl, N)
     via = case['via']
     if via == 'method':
-        other = system.neighborlist(cutoff=cutoff, **kw)
+        other = system.neighborlist(cutoff=carg, **kw)
         require(isinstance(other, am.NeighborList), lambda: 'System.neighborlist returned %r' % type(other))
         orows = read_lists(other, N, 'System.neighborlist')
     elif via == 'function':
-        arr = np.asarray(am.nlist(system, cutoff, **kw))
+        if positional:
+            arr = np.asarray(am.nlist(system, carg, *[kw[k] for k in ('initialsize', 'deltasize')[:2 if len(kw) == 2 else 1 if 'initialsize' in kw else 0]],
+                                      **({'deltasize': kw['deltasize']} if len(kw) == 1 and 'deltasize' in kw else {})))
+        else:
+            arr = np.asarray(am.nlist(system=system, cutoff=carg, **kw))
         require(arr.ndim == 2 and arr.shape[0] == N, lambda: 'nlist() returned shape %r' % (arr.shape,))
         orows = [[int(x) for x in arr[i, 1:1 + int(arr[i, 0])]] for i in range(N)]
         # columns beyond the coordination number are uninitialised storage: only shape and used part are compared
@@ -343,33 +526,271 @@ def oracle_api(case):
     else:
         # build() on an existing object (here: one holding the list of a different cutoff) replaces its content
         other = am.NeighborList(system=system, cutoff=0.5 * cutoff)
-        other.build(system, cutoff, **kw)
+        if case.get('inspect'):
+            read_lists(other, N, 'list of half the cutoff')          # the object has been looked at before it is re-built
+        if positional:
+            other.build(system, carg, **kw)
+        else:
+            other.build(system=system, cutoff=carg, **kw)
         orows = read_lists(other, N, 'NeighborList.build')
     same_lists(rows, orows, 'NeighborList(system=, cutoff=) versus ' + via)
     # the system is left as it was
-    require(np.array_equal(np.asarray(system.atoms.pos), pos) and np.array_equal(np.asarray(system.box.vects), V)
+    require(np.array_equal(np.asarray(system.atoms.pos, dtype=float), pos) and np.array_equal(np.asarray(system.box.vects), V)
             and list(system.pbc) == pbc, 'building a neighbour list changed the system')
-    labels = {'kind_' + case['kind'], 'via_' + via}
+    labels = {'kind_' + case['kind'], 'via_' + via} | form_labels(case, system)
+    if positional:
+        labels.add('positional_arguments')
+    if via == 'build' and case.get('inspect'):
+        labels.add('rebuilt_after_read')
     if any(rows):
         labels.update({'has_pairs', 'nt'})
     return labels
 
 
+# ----------------------------------------------------------------------------- history
+
+_hist_kinds = st.sampled_from(['sparse', 'targeted', 'targeted', 'faces', 'binedge', 'dense', 'dense', 'cluster', 'dyadic'])
+_create = st.sampled_from(['ctor', 'ctor', 'ctor', 'ctor', 'method', 'method', 'method', 'model_path', 'model_stream', 'method_model'])
+_peek = st.lists(st.sampled_from(['coord', 'item', 'len', 'nlist', 'iter']), max_size=3)
+_step = st.fixed_dictionaries({
+    'op': st.sampled_from(['build', 'build', 'build', 'load', 'load', 'selfload', 'edit', 'edit']),
+    'sys': st.integers(0, 1),
+    'fac': st.sampled_from([0.5, 0.75, 1.0, 1.0, 1.25, 1.5]),
+    'sizes': st.one_of(st.none(), st.tuples(st.integers(1, 6), st.integers(1, 4)).map(list)),
+    'how': st.integers(0, 3),
+    'edit': st.sampled_from(['pbc', 'roll', 'copyatom', 'setpos', 'viewset']),
+    'a': st.integers(0, 1000), 'b': st.integers(0, 1000),
+    'pbc': gens.pbcs.map(lambda p: [bool(x) for x in p]),
+    'peek': _peek,
+    'judge': st.sampled_from([True, True, True, False]),
+})
+_nsteps = st.sampled_from([1, 2, 2, 3, 3, 4])
+
+
+@st.composite
+def history_cases(draw):
+    nsys = 2
+    return {'systems': [draw(g3.systems(kind=draw(_hist_kinds))) for _ in range(nsys)], 'create': draw(_create),
+            'inspect0': draw(_peek), 'judge0': draw(_bool), 'steps': [draw(_step) for _ in range(draw(_nsteps))]}
+
+
+class _Model:
+    """one system of a history: the atomman System and, as plain data, what it must hold"""
+
+    def __init__(self, sub):
+        self.sub = sub
+        self.system, self.pos, self.V, self.o, self.pbc = build_system(sub)
+        self.cutoff = float(sub['cutoff'])
+
+    def check_system(self, when):
+        s = self.system
+        require(np.array_equal(np.asarray(s.atoms.pos, dtype=float), self.pos) and np.array_equal(np.asarray(s.box.vects), self.V)
+                and np.array_equal(np.asarray(s.box.origin), self.o) and [bool(p) for p in s.pbc] == self.pbc,
+                lambda: 'the system does not hold what it was given (%s)' % when)
+
+    def snapshot(self, cutoff):
+        return {'sub': self.sub, 'pos': self.pos.copy(), 'V': self.V, 'o': self.o, 'pbc': list(self.pbc), 'cutoff': float(cutoff)}
+
+
+def _peek_at(nl, tokens, a, N, what):
+    """read the public views of the list in the given order (no judgement beyond self-consistency)"""
+    for t in tokens:
+        if t == 'coord':
+            require(len(np.asarray(nl.coord)) == N, lambda: '%s: coord has %d entries for %d atoms' % (what, len(nl.coord), N))
+        elif t == 'item':
+            np.asarray(nl[a % N])
+        elif t == 'len':
+            require(len(nl) == N, lambda: '%s: len() = %r for %d atoms' % (what, len(nl), N))
+        elif t == 'nlist':
+            require(np.asarray(nl.nlist).shape[0] == N, lambda: '%s: nlist has %d rows for %d atoms' % (what, np.asarray(nl.nlist).shape[0], N))
+        elif t == 'iter':
+            for i in range(min(N, 3)):
+                np.asarray(nl[i])
+
+
+def _judge(nl, snap, what):
+    """the judgement of clause exact for a list that must describe the snapshot"""
+    pos, V, o, pbc, cutoff = snap['pos'], snap['V'], snap['o'], snap['pbc'], snap['cutoff']
+    N = len(pos)
+    rows = read_lists(nl, N, what)
+    exact = is_exact_case(snap['sub'], pos, V, o, cutoff)
+    exp, near, D, D0, atcut = expected(pos, V, pbc, cutoff, exact)
+    compare_with_reference(rows, pos, V, o, pbc, cutoff, exp, near, D, LazyRebin(pos, V, o, pbc, cutoff), what)
+    if not near.any():
+        cnt = exp.sum(axis=1)
+        require(np.array_equal(np.asarray(nl.coord), cnt), lambda: '%s: coord %r differs from the expected counts %r' % (what, np.asarray(nl.coord).tolist(), cnt.tolist()))
+    return rows
+
+
+def _edit(m, step, labels):
+    """change the system in place through a public setter / mutable attribute; the model follows"""
+    kind = step['edit']
+    N = len(m.pos)
+    stored = m.system.atoms.pos
+    if kind != 'pbc' and not stored.flags['WRITEABLE']:
+        kind = 'pbc'                         # a read-only position array cannot be edited in place: numpy refuses, not atomman
+    if kind == 'pbc':
+        m.pbc = [bool(p) for p in step['pbc']]
+        m.system.pbc = spell_pbc(m.sub, m.pbc)
+    else:
+        new = m.pos.copy()
+        if kind == 'roll':
+            new = np.roll(m.pos, 1 + step['a'] % max(N - 1, 1), axis=0)
+        elif kind == 'copyatom':
+            new[step['a'] % N] = m.pos[step['b'] % N]
+        else:
+            new = m.pos[::-1].copy()
+        if kind == 'setpos':
+            m.system.atoms.pos = new                                   # whole-property assignment (writes into the held array)
+        elif kind == 'viewset':
+            m.system.atoms.view['pos'][...] = new
+        elif kind == 'copyatom':
+            m.system.atoms.pos[step['a'] % N] = new[step['a'] % N]
+        else:
+            m.system.atoms.pos[:] = new
+        m.pos = new
+    labels.add('edit_' + kind)
+    m.check_system('after in-place edit ' + kind)
+
+
+def oracle_history(case):
+    import atomman as am
+    models = [_Model(sub) for sub in case['systems']]
+    labels = {'create_' + case['create']}
+    for k, m in enumerate(models):
+        labels.add('kind_' + m.sub['kind'])
+        labels |= form_labels(m.sub, m.system)
+    tmp = tempfile.mkdtemp(prefix='c03-')
+    try:
+        path = os.path.join(tmp, 'nlist.txt')
+        m0 = models[0]
+
+        def fresh(m, cutoff, sizes=None):
+            kw = {} if sizes is None else dict(initialsize=int(sizes[0]), deltasize=int(sizes[1]))
+            return keyed(m.system, lambda: am.NeighborList(system=m.system, cutoff=spell_cutoff(m.sub, cutoff), **kw))
+
+        # a second list that nothing is done to: must read the same at the end
+        mb = models[-1]
+        bystander = fresh(mb, mb.cutoff)
+        snap_by = mb.snapshot(mb.cutoff)
+        rows_by = _judge(bystander, snap_by, 'second list')
+
+        # ---- creation
+        create = case['create']
+        snap = m0.snapshot(m0.cutoff)
+        if create == 'ctor':
+            nl = keyed(m0.system, lambda: am.NeighborList(system=m0.system, cutoff=spell_cutoff(m0.sub, m0.cutoff), **size_kwargs(m0.sub)))
+        elif create == 'method':
+            nl = keyed(m0.system, lambda: m0.system.neighborlist(cutoff=spell_cutoff(m0.sub, m0.cutoff), **size_kwargs(m0.sub)))
+        else:
+            fresh(m0, m0.cutoff).dump(path)
+            if create == 'model_path':
+                nl = am.NeighborList(model=path)
+            elif create == 'model_stream':
+                with open(path, 'rb') as fh:
+                    nl = am.NeighborList(model=fh)
+            else:
+                nl = method_model(m0.system, path)
+        N = len(snap['pos'])
+        _peek_at(nl, case['inspect0'], 0, N, 'new list')
+        was_read = bool(case['inspect0'])
+        rows = None
+        if case['judge0']:
+            rows = _judge(nl, snap, 'new list (%s)' % create)
+            was_read = True
+        if was_read:
+            labels.add('read_before_first_step')
+
+        # ---- steps on the same object
+        steps = case['steps']
+        for n, step in enumerate(steps):
+            m = models[step['sys'] % len(models)]
+            op = step['op']
+            cutoff = m.cutoff * float(step['fac'])
+            prev_snap = snap
+            if op == 'edit':
+                _edit(m, step, labels)
+            if op in ('build', 'edit'):
+                kw = {} if step['sizes'] is None else dict(initialsize=int(step['sizes'][0]), deltasize=int(step['sizes'][1]))
+                carg = spell_cutoff(m.sub, cutoff)
+                if step['how'] % 2:
+                    keyed(m.system, lambda: nl.build(system=m.system, cutoff=carg, **kw))
+                else:
+                    keyed(m.system, lambda: nl.build(m.system, carg, **kw))
+                snap = m.snapshot(cutoff)
+                what = 'step %d: build() on the same object (%s)' % (n + 1, 'after in-place edit of the system' if op == 'edit' else 'system %d' % (step['sys'] % len(models)))
+            elif op == 'load':
+                fresh(m, cutoff, step['sizes']).dump(path)
+                how = step['how'] % 4
+                if how == 0:
+                    nl.load(path)
+                elif how == 1:
+                    with open(path, 'rb') as fh:
+                        nl.load(fh)
+                elif how == 2:
+                    with open(path, 'rb') as fh:
+                        nl.load(io.BytesIO(fh.read()))
+                else:
+                    with open(path) as fh:
+                        nl.load(model=fh.read())
+                snap = m.snapshot(cutoff)
+                what = 'step %d: load() into the same object (%s)' % (n + 1, ('path', 'binary stream', 'BytesIO', 'content')[how])
+            else:
+                # dump of the object itself, loaded into itself: the content stays
+                nl.dump(path)
+                nl.load(path)
+                what = 'step %d: dump() and load() of the object itself' % (n + 1)
+            labels.add('op_' + op)
+            N = len(snap['pos'])
+            last = n == len(steps) - 1
+            if was_read and op != 'selfload':
+                labels.add('replaced_after_read')
+                if len(prev_snap['pos']) != N:
+                    labels.add('replaced_other_natoms')
+            _peek_at(nl, step['peek'], step['a'], N, what)
+            if step['judge'] or last:
+                new_rows = _judge(nl, snap, what)
+                if was_read and op != 'selfload' and rows is not None and new_rows != rows:
+                    labels.update({'replaced_by_different_lists', 'nt'})
+                rows = new_rows
+                was_read = True
+            else:
+                labels.add('unjudged_step')
+                rows = None
+                was_read = was_read or bool(step['peek'])
+
+        # ---- the second list, the donor systems
+        same_lists(rows_by, _judge(bystander, snap_by, 'second list at the end'), 'second list, at the start versus at the end')
+        for m in models:
+            m.check_system('at the end')
+    finally:
+        shutil.rmtree(tmp, ignore_errors=True)
+    labels.add('steps_%d' % len(case['steps']))
+    return labels
+
+
 CLAUSES = [
-    Clause('exact', oracle_exact, g3.systems, quick=13000, thorough=360000,
+    Clause('exact', oracle_exact, g3.systems, quick=11000, thorough=330000,
            min_share={'nt': 0.3, 'has_pairs': 0.3, 'ghost_only_bin': 0.35, 'image_pair': 0.15, 'grew_rows': 0.08,
                       'bin_grew': 0.025, 'pair_exactly_at_cutoff': 0.012, 'pbc_mixed': 0.3, 'rotated': 0.18,
                       'tilted': 0.2, 'cutoff_gt_width': 0.04, 'own_image_within_cutoff': 0.015, 'kind_targeted': 0.1,
-                      'kind_binedge': 0.07, 'on_face': 0.2},
+                      'kind_binedge': 0.07, 'on_face': 0.2, 'pos_readonly_stored': 0.09, 'pos_noncontiguous_stored': 0.04,
+                      'pos_sequence': 0.035},
            desc='every list equals the independent reference {j != i : shortest of the 27 candidates < cutoff}; strictly '
-                'ascending, no self entry, symmetric, coord = length = first column'),
-    Clause('sizes', oracle_sizes, sizes_cases, quick=2600, thorough=60000,
-           min_share={'nt': 0.15, 'grew_twice': 0.1, 'size_one': 0.2},
-           desc='identical lists for default and drawn initialsize/deltasize (both, and each alone)'),
-    Clause('file', oracle_file, g3.systems, quick=2200, thorough=40000,
-           min_share={'nt': 0.3, 'ragged': 0.15, 'has_empty_row': 0.25, 'two_digit_ids': 0.08},
-           desc='dump then NeighborList(model=path | open binary stream | BytesIO | content string): identical lists; second dump identical text'),
-    Clause('api', oracle_api, api_cases, quick=2000, thorough=24000,
-           min_share={'nt': 0.28, 'via_function': 0.12, 'via_build': 0.1},
-           desc='System.neighborlist, nlist(), NeighborList.build give the same lists as NeighborList(system=, cutoff=); system untouched'),
+                'ascending, no self entry, symmetric, coord = length = first column; for every input form'),
+    Clause('sizes', oracle_sizes, sizes_cases, quick=2200, thorough=55000,
+           min_share={'nt': 0.15, 'grew_twice': 0.1, 'size_one': 0.2, 'pos_readonly_stored': 0.09},
+           desc='identical lists for default and drawn initialsize/deltasize (both, and each alone), and for the default again afterwards'),
+    Clause('file', oracle_file, file_cases, quick=2000, thorough=38000,
+           min_share={'nt': 0.3, 'ragged': 0.15, 'has_empty_row': 0.25, 'two_digit_ids': 0.08, 'pos_readonly_stored': 0.07},
+           desc='dump then NeighborList(model=path | open binary stream | BytesIO | content string) and System.neighborlist(model=): '
+                'identical lists; second dump identical text'),
+    Clause('api', oracle_api, api_cases, quick=1800, thorough=22000,
+           min_share={'nt': 0.28, 'via_function': 0.12, 'via_build': 0.1, 'positional_arguments': 0.17, 'pos_readonly_stored': 0.07},
+           desc='System.neighborlist, nlist(), NeighborList.build (positional and keyword) give the same lists as NeighborList(system=, cutoff=); system untouched'),
+    Clause('history', oracle_history, history_cases, quick=1600, thorough=30000,
+           min_share={'nt': 0.17, 'replaced_after_read': 0.28, 'replaced_other_natoms': 0.15, 'read_before_first_step': 0.25,
+                      'op_load': 0.15, 'op_edit': 0.13, 'op_selfload': 0.06, 'unjudged_step': 0.09, 'pos_readonly_stored': 0.12},
+           desc='one NeighborList object through build / load / dump-load / in-place system edits, read in varying orders: after every '
+                'step it equals the independent reference for what it was last given; an untouched second list stays as it was'),
 ]
